@@ -103,6 +103,7 @@ def run(ctx):
     o7(ctx, F)
     o11(ctx, F)
     o13(ctx, F)
+    o14(ctx, F)
     # `stop` ends the search: the flag it clears is the flag every level of the search looks at (C07.Q7)
     from . import p07
     before, nv = len(ctx.instances), len(ctx.violations)
@@ -563,6 +564,67 @@ def o13(ctx, F):
                        "unwraps a game that is gone, panics and poisons the mutex)" % cmd,
                   expected="if let Some(t) = search_thread.take() { t.join() } outside the running test, before the lock", found=ok)
     ctx.floor("C14.O13", "commands that touch the session state", n, 3)
+
+
+def _running_test(x):
+    return x[0] == "if" and x[2] is True and "load(search_is_running" in hir.fmt(x[1], 200).replace("std::sync::atomic::Atomic::", "").replace("<bool>::", "")
+
+
+def o14(ctx, F):
+    """O14 the command loop only waits for a search it has told to stop, and never lets go of one it has not waited for: (a) a
+    `join` on a path taken *while a search is flagged as running* is preceded on that path by lowering the flag (else `go infinite`,
+    `ucinewgame` blocks the command loop for good - `stop` is never read); (b) a thread handle taken out of the loop's slot is
+    joined or stored again, never bound and dropped (a dropped handle detaches the search thread: the command goes on to lock the
+    session state while that thread may not yet have taken it - the race of O13 again)."""
+    fn = F.fn(TALK)
+    body = fn["hir"]["body"]
+    sym = hir.Sym(hir.Env(fn["hir"], F), F)
+    n_j = 0
+    for j, anc in hir.walk(body):
+        if j.get("k") == "MethodCall" and j.get("name") == "join" and "JoinHandle" in str(j["recv"].get("ty", "")):
+            g = hir.guards_of(j, body, sym) or []
+            if not any(_running_test(x) for x in g):
+                continue
+            n_j += 1
+            # the innermost block under the running test that holds the join: a store(false) on the flag earlier in it
+            ifs = [a_ for a_ in anc if a_.get("k") == "If" and "load(search_is_running" in
+                   hir.fmt(sym(a_["cond"]), 200).replace("std::sync::atomic::Atomic::", "").replace("<bool>::", "")]
+            scope = ifs[-1]["then"] if ifs else body
+            lowered = [c for c, _ in hir.walk(scope) if c.get("k") == "MethodCall" and c.get("name") == "store" and
+                       "search_is_running" in hir.fmt(sym(c["recv"]), 80) and sym(c["args"][0]) == ("lit", False) and hir.order_key(c) < hir.order_key(j)
+                       and not [x for x in (hir.guards_of(c, scope, sym) or []) if x[0] == "if"]]
+            ctx.check("C14.O14", "search-told-to-stop-before-it-is-waited-for", bool(lowered), fn=TALK, file=fn["file"], line=hir.line(j),
+                      what="the command loop waits for a running search without telling it to stop: with an unlimited search the loop "
+                           "blocks for good and no further command is read", expected="search_is_running.store(false) before the join",
+                      found=[hir.fmt(sym(c["args"][0]), 10) for c, _ in hir.walk(scope) if c.get("k") == "MethodCall" and c.get("name") == "store"])
+    # (b) every binding of a thread handle is used (joined, stored, returned)
+    binds = {}
+    def pats(n):
+        if isinstance(n, dict):
+            if n.get("k") == "PBind" and str(n.get("ty", "")).startswith("std::thread::JoinHandle<"):
+                binds[n["id"]] = n
+            for v in n.values():
+                pats(v)
+        elif isinstance(n, list):
+            for v in n:
+                pats(v)
+    pats(fn["hir"])
+    used = set()
+    for n, anc in hir.walk(body):
+        if n.get("k") == "Path" and (n.get("to") or {}).get("res") == "local" and n["to"].get("id") in binds:
+            par = anc[-1] if anc else {}
+            if (par.get("k") == "MethodCall" and par.get("name") == "join" and par.get("recv") is n) \
+                    or (par.get("k") == "Call" and str(hir.callee_of(par) or "").endswith("::Some")) \
+                    or par.get("k") in ("Match", "Arm", "Block", "Ret", "Assign", "Struct", "Tuple", "SLet"):      # joined, kept, or handed on as a value
+                used.add(n["to"]["id"])
+    for i_, b_ in sorted(binds.items()):
+        if str(b_.get("name", "")).startswith("_"):
+            continue
+        ctx.check("C14.O14", "thread-handle-joined-or-kept:%s" % b_.get("name"), i_ in used, fn=TALK, file=fn["file"],
+                  what="a search thread's handle is taken out of the loop's slot and dropped: the thread is detached and the command "
+                       "goes on to the session state without waiting for it", expected="thread.join() / search_thread = Some(thread)",
+                  found="bound, neither joined nor kept")
+    ctx.floor("C14.O14", "thread handle bindings in the command loop", len(binds), 4)
 
 
 def o6b(ctx, F):
